@@ -269,6 +269,14 @@ class Endpoint:
             self.got.append(block)
             return orig(source, block)
         self.p._thread._dispatcher_target = wrapped
+        # … and what reaches the message handler behind `_dispatch_block` (`_on_connection_message_received`): the whole dispatch path
+        self.at_handler = []
+        real_handler = self.p._on_connection_message_received
+
+        def handler(source, message):
+            self.at_handler.append(message)
+            return real_handler(source, message)
+        self.p._on_connection_message_received = handler
         self.c.on_connected({"source": self.c})
 
     def feed(self, segments):
@@ -284,9 +292,19 @@ class Endpoint:
         self.c.on_disconnected({"source": self.c})
 
 
+SECSII_BODIES = [bytes.fromhex(x) for x in (
+    "a501ff", "a90201f4", "b104fffffffe", "a108ffffffffffffffff", "9104bf800000", "8108bff0000000000000", "210380ff90",
+    "0102a501c8b10400000080", "4103e9fc80")]          # U1 U2 U4 U8 F4 F8 B, a list of them, an "A" with latin-1 bytes: none is UTF-8
+
+
 def gen_valid_frames(rng, n, big_body=False):
     out = []
     for _ in range(n):
+        if rng.chance(1, 4):
+            vals = M.gen_fields(rng, stype=0)
+            body = rng.choice(SECSII_BODIES)
+            out.append((vals, body, M.ref_frame(*vals, body)))
+            continue
         ty = rng.choice([0, 0, 0, 1, 2, 3, 4, 5, 6, 6, 7, 9])
         vals = M.gen_fields(rng, stype=ty)
         if ty != 0:
@@ -297,6 +315,14 @@ def gen_valid_frames(rng, n, big_body=False):
     return out
 
 
+def _is_utf8(b: bytes) -> bool:
+    try:
+        b.decode("utf-8")
+        return True
+    except UnicodeDecodeError:
+        return False
+
+
 class TooManyFailures(Exception):
     pass
 
@@ -305,12 +331,26 @@ def check_delivery(res, ep, frames, segments, label, case):
     if res.hist.get("segmentation_failures", {}).get("n", 0) >= 5:
         raise TooManyFailures
     before = len(ep.got)
+    before_h = len(getattr(ep, "at_handler", []))
     ep.feed(segments)
     ok = ep.settle(before + len(frames))
     got = ep.got[before:]
     want = [(list(map(int, v)), b) for v, b, _ in frames]
     have = [(M.hdr_fields(g.header), bytes(g.data)) for g in got]
     res.bump("segmentation_kind", label)
+    if ok and have == want and hasattr(ep, "at_handler"):
+        # every complete frame also has to get THROUGH `_dispatch_block` to the message handler (whatever bytes its body holds)
+        okh = M.wait_until(lambda: len(ep.at_handler) >= before_h + len(frames), 3.0)
+        hv = [(M.hdr_fields(m.header), bytes(m.data)) for m in ep.at_handler[before_h:]]
+        if not okh or hv != want:
+            missing = [w for w in want if w not in hv]
+            res.bump("segmentation_failures", "n")
+            res.violate("dispatch-drops-frame", "a completely received frame was queued for dispatch but did not reach the message handler "
+                        "(_on_connection_message_received): dropped inside _dispatch_block",
+                        dict(case, frames=[f[2].hex() for f in frames] if sum(len(f[2]) for f in frames) < 3000 else None),
+                        len(want), {"reached_handler": len(hv), "first_missing": None if not missing else
+                                    {"header": missing[0][0], "body": missing[0][1].hex()[:80], "body_is_utf8": _is_utf8(missing[0][1])}})
+            return False
     if not ok or have != want:
         what = "delivered blocks differ from the frames sent (lost / duplicated / merged / reordered)" if ok else \
             "not all frames were delivered within 5 s or bytes were left in the receive buffer"
